@@ -12,7 +12,7 @@ import (
 )
 
 func init() {
-	register("C13", false, true, checkC13)
+	register("C13", true, true, checkC13)
 }
 
 func checkC13(w *World, tier string) *Report {
@@ -32,6 +32,20 @@ func checkC13(w *World, tier string) *Report {
 	// the balances are filed under is this frame's, not its parent's
 	addR71(w, r, "R7.1")
 	r.Explanation += " R7.1 (shared with C07) the frame's call-tree node is opened before any early return — in particular before the value transfer — so the call index the balances are filed under is this frame's."
+	// seventh batch: R13.2 says who calls TransferWithRecord, not when. "Every value transfer" means: wherever the
+	// reference transfers, under the reference's conditions — that is the position-checked replacement of
+	// evm.Context.Transfer inside the embedding of Call and create (C01 R1.1/R1.3). A guard around the create
+	// transfer (`if value.Sign() != 0`) leaves zero-value creations without their bracket
+	w.e1().cloneRule(r, "R13.4", pkVM, func(name string, pr *PairResult) bool { return name == "(*EVM).Call" || name == "(*EVM).create" })
+	r.need("R13.4", 2)
+	r.Explanation += " R13.4 (shared with C01) Call and create embed the reference's bodies with the transfer statement replaced in place by TransferWithRecord: the journaled transfer happens exactly where and when the reference transfers."
+	// seventh batch: a bracket once journaled stays journaled — whatever happens to the frame afterwards (the transfer
+	// was made and the host's transfer function saw it even if the frame later reverts). The change lists are
+	// written only by StorageChanges.append / StorageKey.JournalChanges (C10 R10.3: a delete counts as a write), and
+	// ExitCall is a straight-line forwarder that does nothing but close the node (C08 R8.3)
+	addR103(w, r, "R10.3")
+	addR83(w, r, "R8.3")
+	r.Explanation += " R10.3 (shared with C10) the change lists are written — delete included — only by StorageChanges.append and StorageKey.JournalChanges; R8.3 (shared with C08) ExitCall only closes the node: journaled balances are not discarded when a frame fails."
 	// R13.2
 	p := w.Pkgs[forkPath(pkVM)]
 	var bad []string
